@@ -621,7 +621,7 @@ func c03R4(c *Ctx) {
 			if o := identObj(gc.Info(), cs.Call.Args[1]); o != nil {
 				ast.Inspect(gc.Decl.Body, func(nd ast.Node) bool {
 					if call, ok := nd.(*ast.CallExpr); ok {
-						if sel, ok := ast.Unparen(call.Fun).(*ast.SelectorExpr); ok && sel.Sel.Name == "Insert" && identObj(gc.Info(), sel.X) == o && len(call.Args) == 1 && strings.HasSuffix(exprString(call.Args[0]), ".PodInfo.PodUID") {
+						if sel, ok := ast.Unparen(call.Fun).(*ast.SelectorExpr); ok && sel.Sel.Name == "Insert" && identObj(gc.Info(), sel.X) == o && len(call.Args) == 1 && strings.HasSuffix(derefString(gc, call.Args[0]), ".PodInfo.PodUID") {
 							okSet = true
 						}
 					}
